@@ -43,7 +43,8 @@ type jcase struct {
 	form      int  // Logger entry point
 	direct    bool // Handler.Handle with a generated instant
 	instant   time.Time
-	prime     lm.Prime // a record logged through another handler right before this one
+	prime     lm.Prime    // a record logged through another handler right before this one
+	fail      *lm.Failure // direct only: the destination fails for the first write(s)
 }
 
 func (c jcase) render() string {
@@ -148,7 +149,24 @@ func run(c jcase) (msg string, payloadLen int) {
 		c.prime.Run(c.instant, c.addSource)
 		r := slog.NewRecord(c.instant, c.level, c.msg, pc)
 		r.AddAttrs(lm.Attrs(c.attrs)...)
-		if err := dh.Handle(context.Background(), r); err != nil {
+		sink.Fail = c.fail
+		err := dh.Handle(context.Background(), r.Clone())
+		if c.fail != nil && sink.FailedCalls > 0 {
+			// the destination failed. A handler that reports the error has made no claim about this record: the caller
+			// logs it once more through the same handler, and the destination has recovered by then. A handler that
+			// reports success has claimed a whole line: everything the destination took is judged.
+			if err != nil {
+				sink.Reset()
+				sink.FailedCalls = c.fail.Times
+				if err = dh.Handle(context.Background(), r.Clone()); err != nil {
+					return "Handle returned " + err.Error() + " on a destination that has recovered after one failed write", 0
+				}
+				ev.Label("destination_failed:error_reported_then_logged_again")
+			} else {
+				ev.Label("destination_failed:success_reported")
+			}
+			sink.Writes = [][]byte{sink.Accepted}
+		} else if err != nil {
 			return "Handle returned " + err.Error(), 0
 		}
 		// for a record without a time slog's handler contract lets a handler leave the member out
@@ -202,6 +220,9 @@ func genCase(t *rapid.T) jcase {
 		c.instant = lm.GenInstant().Draw(t, "instant")
 		if rapid.IntRange(0, 9).Draw(t, "zeroTime") == 0 {
 			c.instant = time.Time{} // a record that carries no time at all
+		}
+		if rapid.IntRange(0, 3).Draw(t, "destinationFails") == 0 {
+			c.fail = lm.GenFailure().Draw(t, "failure")
 		}
 	}
 	c.prime = lm.GenPrime(genOpts).Draw(t, "prime")
